@@ -12,7 +12,8 @@ from pyvc import spec as S
 EVIDENCE_LEVEL = "other"
 EXPLANATION = ("Per-chunk friends-of-friends, cross-chunk merge and spheregroup's renumbering/list rebuild are decided on the real code "
                "for every adjacency graph / chunk cover / labelling up to the stated bounds (forking driver over a symbolic separation predicate).")
-UNDECIDED = ["chunk geometry => edge-cover precondition (every linked pair shares a chunk list): spherical geometry in floats (seam, poles, margins)",
+UNDECIDED = ["chunk geometry => edge-cover precondition (every linked pair shares a chunk list; seam, poles, margins): only compared with brute-force "
+             "connected components on generated point sets (spheregroup_vs_brute_force, bounded), no symbolic contract",
              "all sizes: the list/renumbering loops are decided only up to the stated bounds in this version"]
 
 
@@ -340,3 +341,148 @@ class SpheregroupRenumber:
                 return (False, "raised %s: %s" % (type(e).__name__, e))
         bad = check_partition_arrays(n, ing, mult, first, nxt, list(lab), ordered=True, trailing=True)
         return (not bad, "labelling %s -> ingroup %s: %s" % (lab, list(ing), bad[:3]))
+
+
+# ---------------------------------------------------------------------------
+# whole-function contract against brute-force connected components (spatial hash included): bounded numerical stand-in
+# ---------------------------------------------------------------------------
+from pyvc.numeric import NumericJob as _NumericJob
+from contracts.c04 import sky_points, true_sep
+
+
+@register("C05")
+class SpheregroupBruteForce(_NumericJob):
+    name = "spheregroup_vs_brute_force"
+    target = "pydl.pydlutils.spheregroup:spheregroup, chunks.__init__, chunks.assign, chunks.getbounds, chunks.get, chunks.friendsoffriends, groups.__init__"
+    bound = ("5..70 points: clusters, chains of steps just below the linking length running across many chunks (also across the RA 0/360 seam and over a "
+             "pole), seam clusters, near-polar scatter, all sky, chunk-aligned lattices, optionally padded with an all-sky lattice; linking lengths 2 arcsec "
+             ".. 10 deg; chunk sizes from the default to 30 x the linking length; each case also with the points permuted; separations within 1e-7 deg of "
+             "the linking length are not generated")
+    KINDS = ("same_group_exactly_when_linked_by_a_chain", "groups_numbered_by_first_member", "multiplicity_first_next_describe_the_same_partition",
+             "independent_of_chunk_size_and_point_order")
+    NQ, NT = 150, 1500
+
+    def _cases(self, rng, n):
+        rep = 0
+        while rep < n:
+            kind = rng.choice(["cluster", "seam", "pole", "allsky", "lattice", "chain", "chain", "seamchain", "polechain"])
+            npts = rng.randint(5, 70)
+            if kind == "allsky":
+                link = rng.choice([2.0, 5.0, 10.0])
+                ra, dec = sky_points(rng, npts, kind)
+            elif "chain" in kind:
+                link = rng.choice([2 / 3600.0, 0.01, 0.05, 0.3])
+                r0, d0 = rng.uniform(0, 360), rng.uniform(-60, 60)
+                if kind == "seamchain":
+                    r0 = (360.0 - rng.uniform(0, 5) * link) % 360.0
+                if kind == "polechain":
+                    d0 = rng.choice([-1, 1]) * min(89.9999, 90.0 - rng.uniform(0.5, 6) * link)
+                th = rng.uniform(0, 2 * np.pi)
+                ra, dec = [r0], [d0]
+                for _ in range(npts - 1):
+                    step = link * (rng.uniform(0.5, 0.98) if rng.random() < 0.85 else rng.uniform(1.05, 3.0))
+                    th += rng.gauss(0, 0.3)
+                    d = dec[-1] + step * np.sin(th)
+                    r = ra[-1] + step * np.cos(th) / max(1e-3, np.cos(np.radians(dec[-1])))
+                    if abs(d) > 89.9999:            # |Dec| < 90 is a precondition: turn back instead of stepping over the pole
+                        th = -th
+                        d = dec[-1] + step * np.sin(th)
+                    if abs(d) > 89.9999:
+                        d = np.sign(d) * 89.9999
+                    ra.append(r % 360.0)
+                    dec.append(d)
+                ra, dec = np.array(ra), np.array(dec)
+            else:
+                link = rng.choice([2 / 3600.0, 0.01, 0.05, 0.2, 0.5])
+                ra, dec = sky_points(rng, npts, kind)
+                if kind != "lattice":
+                    # shrink the cloud so that linked pairs exist
+                    sc = link * rng.uniform(1.0, 6.0) / 0.4
+                    if kind in ("cluster", "seam"):
+                        dra = ((ra - ra[0] + 180.0) % 360.0) - 180.0
+                        ra, dec = (ra[0] + dra * sc) % 360.0, np.clip(dec[0] + (dec - dec[0]) * sc, -89.9, 89.9)
+            if rng.random() < 0.3:
+                gra, gdec = np.meshgrid(np.arange(0.0, 360.0, 30.0), np.arange(-60.0, 61.0, 30.0))
+                ra, dec = np.concatenate([ra, gra.ravel()]), np.concatenate([dec, gdec.ravel()])
+            npt = ra.size
+            sep = np.array([[true_sep(ra[i], dec[i], ra[k], dec[k]) if k > i else 0.0 for k in range(npt)] for i in range(npt)])
+            sep = sep + sep.T
+            off = ~np.eye(npt, dtype=bool)
+            if (np.abs(sep[off] - link) < 1e-7).any():
+                continue
+            chunksize = rng.choice([None, None, link * rng.uniform(1.0, 30.0)])
+            eff = max(4 * link, 0.1) if chunksize is None else max(chunksize, 4 * link)
+            span_d = dec.max() - dec.min()
+            dra = np.sort(ra)
+            gaps = np.diff(np.concatenate([dra, [dra[0] + 360.0]]))
+            span_r = 360.0 - gaps.max()
+            if np.abs(dec).max() > 90 - 3 * eff:
+                span_r = 360.0
+            while (span_d / eff + 3) * (span_r * max(0.05, np.cos(np.radians(np.abs(dec).min()))) / eff + 3) > 2e5:
+                eff *= 1.5
+                chunksize = eff
+            yield dict(ra=ra, dec=dec, link=link, chunksize=chunksize, sep=sep, perm=rng.sample(range(npt), npt),
+                       inp=dict(rep=rep, sky=kind, npoints=int(npt), linklength=link, chunksize=chunksize))
+            rep += 1
+
+    @staticmethod
+    def _components(sep, link):
+        n = sep.shape[0]
+        parent = list(range(n))
+
+        def find(i):
+            while parent[i] != i:
+                parent[i] = parent[parent[i]]
+                i = parent[i]
+            return i
+        for i in range(n):
+            for k in range(i + 1, n):
+                if sep[i, k] <= link:
+                    parent[find(i)] = find(k)
+        roots, label = {}, []
+        for i in range(n):
+            label.append(roots.setdefault(find(i), len(roots)))
+        return label
+
+    def _check(self, c):
+        import warnings
+        from pydl.pydlutils.spheregroup import spheregroup
+        ra, dec, link, sep = c["ra"], c["dec"], c["link"], c["sep"]
+        n = ra.size
+        kw = {} if c["chunksize"] is None else dict(chunksize=c["chunksize"])
+        with warnings.catch_warnings():
+            warnings.simplefilter("ignore")
+            ing, mult, first, nxt = (np.asarray(a) for a in spheregroup(ra.copy(), dec.copy(), link, **kw))
+        bad = []
+        exp = self._components(sep, link)          # numbered by first member already
+        if ing.shape != (n,) or mult.shape != (n,) or first.shape != (n,) or nxt.shape != (n,):
+            return [("multiplicity_first_next_describe_the_same_partition", "shapes %s %s %s %s" % (ing.shape, mult.shape, first.shape, nxt.shape))]
+        same_got = ing[:, None] == ing[None, :]
+        same_exp = np.array(exp)[:, None] == np.array(exp)[None, :]
+        if not np.array_equal(same_got, same_exp):
+            i, k = [int(v) for v in np.argwhere(same_got != same_exp)[0]]
+            bad.append(("same_group_exactly_when_linked_by_a_chain", "points %d (%.6f, %.6f) and %d (%.6f, %.6f): grouped together %s, linked by a chain %s" %
+                        (i, ra[i], dec[i], k, ra[k], dec[k], bool(same_got[i, k]), bool(same_exp[i, k]))))
+        elif list(ing) != exp:
+            bad.append(("groups_numbered_by_first_member", "group numbers %s..., expected %s..." % (list(ing)[:12], exp[:12])))
+        ng = int(ing.max()) + 1
+        ok = (mult[ng:] == 0).all() and (first[ng:] == -1).all()
+        for g in range(ng):
+            members = [i for i in range(n) if ing[i] == g]
+            walk, j, guard = [], int(first[g]), 0
+            while j != -1 and guard <= n:
+                walk.append(j)
+                j = int(nxt[j])
+                guard += 1
+            ok = ok and int(mult[g]) == len(members) and int(first[g]) == min(members) and sorted(walk) == members and len(walk) == len(members)
+        if not ok:
+            bad.append(("multiplicity_first_next_describe_the_same_partition", "multiplicity / first / next do not describe the partition given by the group numbers"))
+        p = c["perm"]
+        with warnings.catch_warnings():
+            warnings.simplefilter("ignore")
+            ing2 = np.asarray(spheregroup(ra[p].copy(), dec[p].copy(), link, chunksize=max(4 * link, 0.1) * 2.3)[0])
+        back = np.empty(n, dtype=int)
+        back[p] = ing2
+        if not np.array_equal(back[:, None] == back[None, :], same_exp):
+            bad.append(("independent_of_chunk_size_and_point_order", "permuted input with chunksize %g gives a different partition" % (max(4 * link, 0.1) * 2.3)))
+        return bad
